@@ -395,7 +395,7 @@ def nontrivial(case):
 
 # ------------------------------------------------------------------------------------------ shards
 def shards(tier):
-    per = 350 if tier == 'quick' else 25000
+    per = 1000 if tier == 'quick' else 25000
     out = []
     for f in FACETS:
         out.append({'name': f, 'kind': 'hyp', 'facet': f, 'examples': per, 'hypothesis': True})
